@@ -655,11 +655,9 @@ PAROL_BIN = os.path.join(lsp.VERIF, 'target', 'ls', 'debug', 'parol')
 
 
 def build_parol_bin():
-    env = dict(os.environ, CARGO_NET_OFFLINE='true', CARGO_TARGET_DIR=os.path.join(lsp.VERIF, 'target', 'ls'), RUSTFLAGS='--cfg parol_verif')
-    p = subprocess.run('cargo build -p parol --bin parol --offline', shell=True, cwd='/repo', env=env,
-                       stdout=subprocess.PIPE, stderr=subprocess.STDOUT, text=True, timeout=3000)
-    if p.returncode != 0:
-        raise cl.MachineryError('parol binary build failed:\n' + p.stdout[-3000:])
+    ok, out = cl.build_repo_bin(['parol'], 'ls')
+    if not ok:
+        raise cl.MachineryError('parol binary build failed:\n' + out[-3000:])
 
 
 def tie_grammars(rng, n):
